@@ -109,12 +109,18 @@ class Exhaustive(Stream):
 
     def compare(self, case, out, results):
         if isinstance(out, ImplError):
+            if 'imeout' in str(out.get('error')):
+                return 'skip:run time is not the property\'s subject'
             return 'implementation raised %s' % out['error']
+        skip = None
         for i, ((combo, e, F, A), o) in enumerate(zip(self._inputs(case), out)):
-            d = _spec.hht_compare(o, results[2 * i:2 * i + 2])
+            d = _spec.hht_compare(o, results[2 * i:2 * i + 2], outside=any(v is None for row in F for v in row))
+            if d and d.startswith('skip:'):
+                skip = d
+                continue
             if d:
                 return 'freqs=%s amps=%s edges=%s mode=%s: %s' % (F, A, [float(v) for v in e], case['mode'], d)
-        return None
+        return skip
 
     @_guarded
     def holds(self, case, out):
@@ -244,8 +250,11 @@ class Single(Stream):
 
     def compare(self, case, out, results):
         if isinstance(out, ImplError):
+            if 'imeout' in str(out.get('error')):
+                return 'skip:run time is not the property\'s subject'
             return 'implementation raised %s' % out['error']
-        return _spec.hht_compare(out, results, do_1d=self._do1d(case))
+        Fa = _spec.arr(case['F'])
+        return _spec.hht_compare(out, results, do_1d=self._do1d(case), outside=_spec.hht_outside_quantifier(Fa.ndim, Fa))
 
     @_guarded
     def holds(self, case, out):
@@ -408,8 +417,10 @@ class Malformed(Stream):
 
     def compare(self, case, out, results):
         if isinstance(out, ImplError):
+            if 'imeout' in str(out.get('error')) or case['why'] != 'ok':
+                return 'skip:time-out / input outside the quantifier'
             return 'implementation raised %s' % out['error']
-        return _spec.hht_compare(out, results, do_1d=self._same_shape(case))
+        return _spec.hht_compare(out, results, do_1d=self._same_shape(case), outside=case['why'] != 'ok')
 
     @_guarded
     def holds(self, case, out):
